@@ -530,8 +530,12 @@ pub fn gen_ops_for(r: &mut Rng, nkeys: usize, n_ops: usize, crypto: bool, x509: 
     // always start with a root so that issuer-dependent operations have a target
     ops.push(Op::SelfSign { key: r.usize(nkeys), recipe: gen_ca_cert(r, &sw), store: true });
     issuers += 1;
+    let mut last_ca_dn: Option<DnRecipe> = None;
+    if let Some(Op::SelfSign { recipe, .. }) = ops.first() {
+        last_ca_dn = Some(recipe.dn.clone());
+    }
     while ops.len() < n_ops {
-        let op = match r.below(10) {
+        let mut op = match r.below(10) {
             0 => Op::SelfSign { key: r.usize(nkeys), recipe: gen_cert(r, &sw), store: false },
             1 => {
                 issuers += 1;
@@ -579,6 +583,12 @@ pub fn gen_ops_for(r: &mut Rng, nkeys: usize, n_ops: usize, crypto: bool, x509: 
             8 if x509 => Op::IssueViaImport { issuer: r.usize(issuers), subject: r.usize(nkeys), recipe: gen_cert(r, &sw) },
             _ => Op::Crl { issuer: r.usize(issuers), recipe: gen_crl(r, &sw) },
         };
+        // a rare coincidence no independent draw produces: a subject named exactly like a CA of the run
+        if let (Some(dn), Op::Issue { recipe, .. } | Op::SelfSign { recipe, .. }) = (&last_ca_dn, &mut op) {
+            if r.chance(1, 10) {
+                recipe.dn = dn.clone();
+            }
+        }
         ops.push(op);
     }
     ops
